@@ -54,6 +54,8 @@ pub struct WireState {
     pub send_waker: Option<Waker>,
     /// (task id, message) for every message handed to the client
     pub recv_log: Vec<(usize, Bytes)>,
+    /// for every entry of `recv_log`: how many client messages had been sent at that moment
+    pub recv_sent: Vec<usize>,
     /// number of recv() polls that found nothing
     pub empty_polls: u64,
     /// number of send() calls that have completed (successfully or not)
@@ -309,6 +311,8 @@ impl RecvHandle for MemReceiver {
             if let Some(m) = st.inbox.pop_front() {
                 let task = CURRENT_TASK.with(std::cell::Cell::get);
                 st.recv_log.push((task, m.clone()));
+                let sent_now = st.sent.len();
+                st.recv_sent.push(sent_now);
                 return Poll::Ready(Ok(m));
             }
             if st.closed {
